@@ -18,7 +18,7 @@ CHECKS = {
    note="schedule points only where hooks are (total_used() is one step); sizes {5,8} units near a 32-unit limit; cross-pool race is a recorded finding whose region is carved out by the ghost variable `overlap`"),
  "C36": dict(cat="model_checking", ref="DESIGN.md 3.4, 6 (C36)",
    tech="TLA+ spec PageLocks.tla model-checked by TLC (safety + liveness); TLC schedules driven through the real PageLockManager by a puppeteer at hook points",
-   text="TLC explores every interleaving of 2 threads x 3 lock/unlock/table-intent operations over 2 pages (3 threads in thorough) with one action per critical section of the code, checks MutexW/NoRW/TablesEmptyWhenIdle and AcquireSucceeds under weak fairness; each explored transition is forced on the real lock manager, with the harness's own occupancy table and the lock-table sizes compared after every step",
+   text="TLC explores every interleaving of 2 threads x 3 lock/unlock/table-intent operations over 2 pages (3 threads in thorough) with one action per critical section of the code, checks MutexW/NoRW/TablesEmptyWhenIdle and AcquireSucceeds under weak fairness; each explored transition is forced on the real lock manager, with the harness's own occupancy table and the lock-table sizes compared after every step; in addition real threads (2 writers, 3-4 readers of one hot page, 2 threads on neighbouring pages) hammer the real PageLockManager for a few seconds while MutexW / MutexRW are monitored on a shadow state changed only under the real lock (reaches interleavings inside regions without hook points; nondeterministic)",
    note="blocking is modelled as disabledness (schedules never park a thread inside a contended lock); schedule points exist only at the hooks; page_write_multi not modelled"),
  "C34": dict(cat="model_checking", ref="DESIGN.md 3.7, 6 (C34)",
    tech="TLA+ spec Freelist.tla (trunk-shaped model vs abstract free set) model-checked by TLC; single-operation and bulk (FreelistBulk.tla) histories from TLC replayed on the real Freelist",
